@@ -6,6 +6,7 @@ stream items or suspended calls are pending on other keys.
 import Lockable.Proofs.LinearOut
 import Lockable.Proofs.Holds
 import Lockable.Proofs.Erasure
+import Lockable.Proofs.Stream
 set_option linter.unusedSimpArgs false
 namespace Lockable
 
@@ -115,5 +116,48 @@ theorem lock_try_failed_erased (a : Api) (hi : Inv a.s) (h k h0 : Nat) (hf : a.s
       simp only [Nat.zero_add]
       unfold Api.lockPrelude
       simp only [hu, hhs, reduceCtorEq, ↓reduceIte, e1, e2, e3, and_self]
+
+/-- a plain waiting lock call on a held key, cancelled (its future dropped) before it is served: the two calls together are the
+identity on the whole API state, up to the recency refresh of the lookup; no stream item is woken by the cancellation -/
+theorem lock_wait_cancel_erased (a : Api) (hi : AInv a) (h k h0 : Nat) (m : Entry) (w : Nat) (hf : a.s.hs h = none)
+    (hsu : a.susp.lookup h = none) (hm : a.s.ent k = some m) (hho : m.holder = some w) :
+    let a1 := (a.exec (.lock .wait h k .none h0)).1
+    (a1.exec (.cancel h)).1 = { a with s := a.s.touch k } := by
+  intro a1
+  have hinv := hi.inv
+  have hwh : w ≠ h := fun e => by
+    subst e
+    have := (hinv.holderLive k m w hm hho).1
+    rw [hf] at this; cases this
+  obtain ⟨e1, e2⟩ := cancel_erases_wait a.s hinv h k m w hf hm hho
+  have hu := lookup_unit a.s h k hinv hf
+  have hl : lookup a.s h k = ((a.s.clone h k m).touch k, .unit) := by
+    simp [lookup, hinv.notWedged, hf, hm]
+  have he : enqueue ((a.s.clone h k m).touch k) h =
+      (((((a.s.clone h k m).touch k).setEnt k { m with refs := h :: m.refs, queue := m.queue ++ [h] }).setSt h ⟨k, m.eid, .replica⟩ .queued), .bool false) := by
+    simp [enqueue, touch_hs, touch_ent, State.clone, State.entryOf, upd, hho]
+  have hhs : (lookup a.s h k).1.hs h = some ⟨k, m.eid, .replica⟩ := by
+    rw [hl]; simp only []; rw [touch_hs]; simp [State.clone, upd]
+  have ha1 : a1 = { a with s := (enqueue (lookup a.s h k).1 h).1 } := by
+    show (a.lock .wait h k .none h0).1 = _
+    unfold Api.lock
+    simp only [Nat.zero_add]
+    unfold Api.lockPrelude
+    simp only [hu, hhs, reduceCtorEq, ↓reduceIte]
+  have hnw : nextWaiter (enqueue (lookup a.s h k).1 h).1 h = none := by
+    rw [hl]; simp only []; rw [he]
+    simp [nextWaiter, State.setSt, State.setEnt, State.entryOf, upd, hho, hwh]
+  have hos : a.ownedByStream h = false := by
+    cases hx : a.ownedByStream h
+    · rfl
+    · simp only [Api.ownedByStream, List.any_eq_true, List.contains_iff_mem] at hx
+      obtain ⟨p, hp, hmem⟩ := hx
+      obtain ⟨wd, hwd, _⟩ := (hi.sok.each p hp).item h (by simpa using hmem)
+      rw [hf] at hwd; cases hwd
+  rw [ha1]
+  show (Api.exec _ (.cancel h)).1 = _
+  unfold Api.exec
+  have hos' : ({ a with s := (enqueue (lookup a.s h k).1 h).1 } : Api).ownedByStream h = false := hos
+  simp only [hos', Bool.false_eq_true, ↓reduceIte, hsu, Api.cancelHandle, hnw, e2, Api.woken, e1]
 
 end Lockable
